@@ -1822,6 +1822,11 @@ int QSexact_solver (mpq_QSdata * p_mpq,
 		mpf_QSfree_prob (p_mpf);
 		p_mpf = 0;
 	}
+	/* every precision has been tried and nothing was certified (a certified
+	 * result jumps to CLEANUP): an OPTIMAL or INFEASIBLE that the last rational
+	 * basis check left in *status is not a result */
+	if (*status == QS_LP_OPTIMAL || *status == QS_LP_INFEASIBLE)
+		*status = QS_LP_UNSOLVED;
 	/* ending */
 CLEANUP:
 	dbl_EGlpNumFreeArray (x_dbl);
